@@ -267,7 +267,7 @@ pub fn pick_grammar(rng: &mut Rng, idx: u64, twins: &[GCase]) -> GCase {
 }
 
 pub fn run(ctx: &mut Ctx) {
-    let n_cases = ctx.pick(3000, 150000);
+    let n_cases = ctx.pick(8000, 150000);
     for idx in 0..n_cases {
         if !ctx.mine(idx) {
             continue;
